@@ -37,6 +37,8 @@ class H:
     covers_required: list = field(default_factory=list)  # cover labels that must be SATISFIED
     abstract: bool = False    # uses UF/stub over-approximation (non-reproducing cex => unconfirmed)
     solver: str = ""          # override
+    memcmp: int = 72          # unwinding bound of CBMC's memcmp loop (Uint == is memcmp over 8*LIMBS bytes)
+    extra_unwind: dict = field(default_factory=dict)  # further --unwindset entries {loop id: bound}
 
     def __post_init__(self):
         if not self.role:
